@@ -54,3 +54,8 @@ def run(rep: Report, repo: Repo, tier: str) -> None:
     from . import bindings as _b
     with rep.isolated():
         _b.rule_generic_binding(rep, repo, "C05-R16")
+    # argument text spliced into a regular expression (without re.escape) anywhere in the listener rejects valid files
+    with rep.isolated():
+        render.rule_listener_regex_splice(rep, repo, "C05-R17")
+    with rep.isolated():
+        protocol.rule_optional_documentation(rep, repo, "C05-R18")
